@@ -11,7 +11,15 @@ classes -> module `Gen.FaultFootprint` (Lean list literals), regenerated from th
  catch_handlers   for every handler: (class, function, handler is catch-all `catch (...)`, handler's LAST statement is a bare `throw;`
                   (rethrow of the same exception object), the calls made inside the handler rendered as base.method(args));
  catch_handler_shape (class, function, number of statements of the handler, number of throw expressions in the handler)
+ catch_handler_decl (class, function, exception-declaration of the handler: "..." for the catch-all, else the declared type): a typed
+                  handler (`catch (const std::exception&)`) lets every exception of another type -- `throw 42;`, a user struct that
+                  is not derived from std::exception -- pass WITHOUT running the handler's statements
  throws           (class, function, exception type | "rethrow") for every throw expression in a scanned function
+ rethrow_by_value (class, function, what) for every `throw <expr>;` whose operand mentions the exception-declaration variable of a
+                  catch handler of that function (`catch (const std::exception& e) { ...; throw e; }` throws a NEW object of the
+                  handler's declared type: the user's exception is sliced, dynamic type and payload are lost), and for every call
+                  of the exception-transport functions std::rethrow_exception / current_exception / throw_with_nested /
+                  rethrow_if_nested / make_exception_ptr
  sri_*            `SparseRegularInverse::solve`: the members it assigns, its status/throw logic (translated structurally:
                   `m_info = (m_cg.info() == Eigen::Success) ? Successful : NotConverging; if (m_info != Successful) throw
                   std::runtime_error(...)`), and every use of a B-operator's `info()` inside the solver classes
@@ -99,9 +107,14 @@ def render_call(call, cls):
         base = (b.get('name') or b.get('member') or b.get('referencedDecl', {}).get('name') or ('this' if b.get('kind') == 'CXXThisExpr' else token_text(cls, b))) + '.'
     return base + meth + '(' + ','.join(first_name(a) for a in inner[1:]) + ')'
 
+TRANSPORT_CALLS = {'rethrow_exception', 'current_exception', 'throw_with_nested', 'rethrow_if_nested', 'make_exception_ptr'}
+
 def describe_handler(h, cls):
-    """(is catch-all, last statement is a bare `throw;`, calls in the handler, number of statements, number of throw expressions)"""
-    catch_all = not any(c.get('kind') == 'VarDecl' for c in h.get('inner', []))
+    """(is catch-all, last statement is a bare `throw;`, calls in the handler, number of statements, number of throw expressions,
+        exception-declaration: '...' or the declared type)"""
+    decls = [c for c in h.get('inner', []) if c.get('kind') == 'VarDecl']
+    catch_all = not decls
+    decl = '...' if catch_all else decls[0].get('type', {}).get('qualType', '?')
     body = [c for c in h.get('inner', []) if c.get('kind') == 'CompoundStmt']
     stmts = body[0].get('inner', []) if body else []
     last = stmts[-1] if stmts else {}
@@ -109,12 +122,26 @@ def describe_handler(h, cls):
     bare = last.get('kind') == 'CXXThrowExpr' and not last.get('inner')
     calls = [render_call(n, cls) for n in walk(h) if n.get('kind') in ('CallExpr', 'CXXMemberCallExpr', 'CXXOperatorCallExpr', 'CXXConstructExpr', 'CXXUnresolvedConstructExpr', 'CXXNewExpr', 'CXXDeleteExpr')]
     nthrow = sum(1 for n in walk(h) if n.get('kind') == 'CXXThrowExpr')
-    return catch_all, bare, calls, len(stmts), nthrow
+    return catch_all, bare, calls, len(stmts), nthrow, decl
 
 def scan_function(cls, fn, res):
     has_body = any(c.get('kind') in ('CompoundStmt', 'CXXTryStmt') for c in fn.get('inner', []))
     if not has_body: return False
     name = fn.get('name', '?')
+    # exception-declaration variables of all handlers of this function
+    catch_vars = {}
+    for n in walk(fn):
+        if n.get('kind') == 'CXXCatchStmt':
+            for c in n.get('inner', []):
+                if c.get('kind') == 'VarDecl' and c.get('id'): catch_vars[c['id']] = c.get('name') or '(unnamed)'
+    for n in walk(fn):
+        if n.get('kind') == 'CXXThrowExpr' and n.get('inner'):
+            for x in walk(n['inner'][0]):
+                rid = x.get('referencedDecl', {}).get('id') if x.get('kind') == 'DeclRefExpr' else None
+                if rid in catch_vars: res['byvalue'].append((cls, name, 'throw ' + catch_vars[rid])); break
+        if n.get('kind') in ('CallExpr', 'CXXMemberCallExpr'):
+            for cn in callee_names(n)[:1]:
+                if cn in TRANSPORT_CALLS: res['byvalue'].append((cls, name, 'call ' + cn))
     for n in walk(fn):
         k = n.get('kind')
         if k == 'CXXNewExpr': res['alloc'].append((cls, name, 'new'))
@@ -145,7 +172,7 @@ def lean_str(s): return '"' + s.replace('\\', '\\\\').replace('"', '\\"') + '"'
 def lean_list(items, f): return '[' + ', '.join(f(i) for i in items) + ']'
 
 def fault_footprint(tu, t):
-    res = {'alloc': [], 'try': [], 'throws': [], 'nfun': {}, 'handlers': []}
+    res = {'alloc': [], 'try': [], 'throws': [], 'nfun': {}, 'handlers': [], 'byvalue': []}
     found = {}
     for o in tu.objs:
         k = o.get('kind'); nm = o.get('name', '?')
@@ -180,6 +207,12 @@ def fault_footprint(tu, t):
     s += '-- ... and its shape: (class, function, number of statements of the handler, number of throw expressions in the handler)\n'
     s += 'def catch_handler_shape : List (String × String × Nat × Nat) := ' + lean_list(sorted(res['handlers']),
         lambda x: f'({lean_str(x[0])}, {lean_str(x[1])}, {x[5]}, {x[6]})') + '\n\n'
+    s += '-- ... and its exception-declaration: "..." for the catch-all `catch (...)`, else the declared type\n'
+    s += 'def catch_handler_decl : List (String × String × String) := ' + lean_list(sorted(res['handlers']),
+        lambda x: f'({lean_str(x[0])}, {lean_str(x[1])}, {lean_str(x[7])})') + '\n\n'
+    s += '-- every `throw <expr>;` whose operand mentions a handler\'s exception-declaration variable (re-throw BY VALUE: slicing), and every\n'
+    s += '-- call of std::rethrow_exception / current_exception / throw_with_nested / rethrow_if_nested / make_exception_ptr\n'
+    s += 'def rethrow_by_value : List (String × String × String) := ' + lean_list(dedup(res['byvalue']), trip) + '\n\n'
     s += '-- every throw expression in a scanned function: (class, function, thrown type or "rethrow")\n'
     s += 'def throws : List (String × String × String) := ' + lean_list(dedup(res['throws']), trip) + '\n'
     return s
